@@ -47,9 +47,17 @@ NOTES = {
  "r3-C18-1": "first missed by C18 (head pointer untraced while a template opened after </head> is open; needs a script that detaches two ancestors); scripts now detach sets of ancestors, ancestors continue through template hosts, scripts are placed inside templates next to the head/form pointers.",
  "r3-C19-1": "first missed by C19 and (at that snapshot) C08: U+FEFF dropped where the parser resumes after an EncodingIndicator; C19's resumption relation is now decided independently of the reference comparison (which had excluded the case as 'C02's business'), and both generators put U+FEFF at resumption points.",
  "r3-C20-2": "first missed by C20 (copies lose the annotation-xml integration-point flag, invisible in the dump); element flags are now compared in lockstep.",
+ "r4-C01-1": "first missed by C01 (caught by C14): one entry of the C1 replacement table in web_atoms; all 32 C1 references added to the token soup.",
+ "r4-C02-1": "first missed by C02 (Noah's Ark equality also compares the duplicate-attribute flag); a Noah's-Ark family (same tag written with permuted / repeated / re-cased attributes) added.",
+ "r4-C07-1": "first missed by C07 (default attach_declarative_shadow answers true, so RcDom loses <template shadowrootmode=open> below the root on re-parse); such templates added to the built trees.",
+ "r4-C07-2": "a fragment-parsing change (foreign context elements): outside what C07 exercises (it re-parses with an HTML div context); flagged by C02.",
+ "r4-C11-1": "a change of the UTF-8 stream decoder, which is C10's subject; C11 (tendril operations) has no reason to see it; flagged by C10.",
+ "r4-C11-2": "first missed by C13 and C01 (scan window of 4096 bytes cuts a multi-byte character): buffers of 1022..65536 bytes added to C13 and buffer-sized runs to the token soup. C11 has no reason to see it.",
+ "r4-C20-1": "first missed by C20: the model compared attribute names with QualName's own ==, which the change redefines; the model now compares namespace, prefix and local name field by field, and the attribute pool has the same expanded names under several prefixes.",
+ "r4-C20-2": "REJECTED: both demonstration traces hand the sink attribute lists with repeated names (in create_element, or inside one add_attrs_if_missing call), which the TreeSink contract (C05) excludes and neither tokenizer produces; on contract-valid calls the change behaves like HEAD.",
  "C02-2": "patch re-based by hand after /repo commit 01c708b moved the changed block (original kept as patch.orig.diff).",
 }
-for d in sorted(glob.glob(os.path.join(root, "seeded", "C*-*")) + glob.glob(os.path.join(root, "seeded", "r2-C*-*")) + glob.glob(os.path.join(root, "seeded", "r3-C*-*"))):
+for d in sorted(glob.glob(os.path.join(root, "seeded", "C*-*")) + glob.glob(os.path.join(root, "seeded", "r2-C*-*")) + glob.glob(os.path.join(root, "seeded", "r3-C*-*")) + glob.glob(os.path.join(root, "seeded", "r4-C*-*"))):
     name = os.path.basename(d)
     log = os.path.join(d, "eval.log")
     if not os.path.exists(log):
